@@ -13,6 +13,9 @@
 //	seq t<ms> adv <d>                              time.Sleep(d ms)                              -> ok
 //	seq t<ms> notified                             (event) the client's ToolListChangedHandler ran since the last record
 //	seq t<ms> list c-|c<name>                      ClientSession.ListTools (cursor: behind tool <name>) -> hit<0|1> T{ … } c-|c<next>
+//	seq t<ms> lsend c-|c<name>                     ListTools begins in a goroutine of its own; the RoundTripper holds the
+//	                                               server's (complete) answer back                -> sent | hit1 T{ … } c… (served from the cache) | ok (one is in flight already)
+//	seq t<ms> lrecv                                the answer held back is delivered, ListTools returns -> hit0 T{ … } c-|c<next>
 //	seq t<ms> look t<name>                         64 x ClientSession.lookupTool                 -> L{ the distinct answers }
 //	seq t<ms> call t<name> P o{ … }                ClientSession.CallTool                        -> H{ Mcp-Param-* sent } ok same | rej <code> handler=<n> | …
 //
@@ -138,6 +141,10 @@ type pfqRT struct {
 	mu      sync.Mutex
 	callHdr http.Header
 	calls   int
+	// armed: the answer of the next tools/list POST is held back (the handler runs to completion, the *http.Response is
+	// handed to the client only when `release` is closed): a response in flight.
+	armed   bool
+	release chan struct{}
 }
 
 func (rt *pfqRT) RoundTrip(req *http.Request) (*http.Response, error) {
@@ -150,6 +157,14 @@ func (rt *pfqRT) RoundTrip(req *http.Request) (*http.Response, error) {
 		rt.mu.Lock()
 		rt.callHdr = req.Header.Clone()
 		rt.calls++
+		rt.mu.Unlock()
+	}
+	var hold chan struct{}
+	if req.Method == http.MethodPost && bytes.Contains(body, []byte(`"method":"tools/list"`)) {
+		rt.mu.Lock()
+		if rt.armed {
+			rt.armed, hold = false, rt.release
+		}
 		rt.mu.Unlock()
 	}
 	ctx, cancel := context.WithCancel(context.WithoutCancel(req.Context()))
@@ -179,6 +194,14 @@ func (rt *pfqRT) RoundTrip(req *http.Request) (*http.Response, error) {
 		cancel()
 		return nil, req.Context().Err()
 	}
+	if hold != nil {
+		select {
+		case <-hold:
+		case <-req.Context().Done():
+			cancel()
+			return nil, req.Context().Err()
+		}
+	}
 	w.mu.Lock()
 	st, hd := w.status, w.sent
 	w.mu.Unlock()
@@ -205,6 +228,15 @@ type pfqWorld struct {
 	lastNote int
 	pv       string
 	sub      bool
+	flight   *pfqFlight // the ListTools in flight (lsend … lrecv), if any
+}
+
+type pfqFlight struct {
+	release chan struct{}
+	done    chan struct{}
+	res     *ListToolsResult
+	err     error
+	panicked bool
 }
 
 func (w *pfqWorld) now() int64 { return time.Since(w.start).Milliseconds() }
@@ -370,6 +402,11 @@ func (w *pfqWorld) connect() (obs string, err error) {
 }
 
 func (w *pfqWorld) close() {
+	if fl := w.flight; fl != nil {
+		w.flight = nil
+		close(fl.release)
+		<-fl.done
+	}
 	if w.cs != nil {
 		w.cs.Close()
 	}
@@ -437,6 +474,79 @@ func (w *pfqWorld) exec(f []string, lastNext *string) (op, obs string, tags []st
 			tags = append(tags, "seq-more-pages")
 		}
 		return op, "hit" + pfB01(fetched == 0) + " " + pfqToolsTok(res.Tools) + " " + pfqCursorTok(res.NextCursor), tags
+	case "lsend":
+		cursor := ""
+		if f[1] != "c-" {
+			cursor, _ = encodeCursor(unhex(f[1][1:]))
+		}
+		op = "lsend " + pfqCursorTok(cursor)
+		if w.flight != nil {
+			return op, "ok", []string{"seq-lsend", "seq-lsend-busy"}
+		}
+		var params *ListToolsParams
+		if cursor != "" {
+			params = &ListToolsParams{Cursor: cursor}
+		}
+		w.mu.Lock()
+		before := w.lists
+		w.mu.Unlock()
+		fl := &pfqFlight{release: make(chan struct{}), done: make(chan struct{})}
+		w.rt.mu.Lock()
+		w.rt.armed, w.rt.release = true, fl.release
+		w.rt.mu.Unlock()
+		go func() {
+			defer close(fl.done)
+			defer func() {
+				if r := recover(); r != nil {
+					fl.panicked = true
+				}
+			}()
+			fl.res, fl.err = w.cs.ListTools(ctx, params)
+		}()
+		synctest.Wait()
+		select {
+		case <-fl.done:
+			// no request was held back: served from the cache (or failed)
+			w.rt.mu.Lock()
+			w.rt.armed = false
+			w.rt.mu.Unlock()
+			w.mu.Lock()
+			fetched := w.lists - before
+			w.mu.Unlock()
+			switch {
+			case fl.panicked:
+				return op, "panic", []string{"seq-lsend", "seq-panic"}
+			case fl.err != nil:
+				return op, "err:" + hxs(firstN(fl.err.Error(), 60)), []string{"seq-lsend", "seq-list-err"}
+			}
+			return op, "hit" + pfB01(fetched == 0) + " " + pfqToolsTok(fl.res.Tools) + " " + pfqCursorTok(fl.res.NextCursor),
+				[]string{"seq-lsend", "seq-lsend-hit" + pfB01(fetched == 0)}
+		default:
+		}
+		w.flight = fl
+		w.mu.Lock()
+		fetched := w.lists - before
+		w.mu.Unlock()
+		if fetched != 1 {
+			return op, fmt.Sprintf("sent-but-%d-reached-the-server", fetched), []string{"seq-lsend"}
+		}
+		return op, "sent", []string{"seq-lsend", "seq-lsend-sent"}
+	case "lrecv":
+		fl := w.flight
+		if fl == nil {
+			return "", "", nil // nothing in flight
+		}
+		w.flight = nil
+		close(fl.release)
+		<-fl.done
+		synctest.Wait()
+		switch {
+		case fl.panicked:
+			return op, "panic", []string{"seq-lrecv", "seq-panic"}
+		case fl.err != nil:
+			return op, "err:" + hxs(firstN(fl.err.Error(), 60)), []string{"seq-lrecv", "seq-list-err"}
+		}
+		return op, "hit0 " + pfqToolsTok(fl.res.Tools) + " " + pfqCursorTok(fl.res.NextCursor), []string{"seq-lrecv", fmt.Sprintf("seq-page%d", min(len(fl.res.Tools), 4))}
 	case "look":
 		name := unhex(f[1][1:])
 		set := map[string]bool{}
@@ -566,7 +676,7 @@ func pfqRun(t *testing.T, out *verifOut, cs string, at string, lines []string, e
 			if len(f) == 0 || f[0] == "notified" {
 				continue // an event, not an operation: re-observed
 			}
-			if w.cs == nil && (f[0] == "connect" || f[0] == "list" || f[0] == "look" || f[0] == "call") {
+			if w.cs == nil && (f[0] == "connect" || f[0] == "list" || f[0] == "lsend" || f[0] == "look" || f[0] == "call") {
 				obs, err := w.connect()
 				if err != nil {
 					emit(fmt.Sprintf("seq t%d connect", w.now()), "err:"+hxs(firstN(err.Error(), 60)), "seq-connect")
@@ -826,14 +936,83 @@ func (g *pfGen) pfqGenerate() []string {
 		listAll()
 	}
 	advs := []int{1, 5, 9, 10, 11, 39, 40, 41, 100, 1000, 59999, 60000, 60001}
+	// concurrency (generator epoch 5): a ListTools runs in a goroutine of its own and its response is in flight (`lsend`)
+	// while the session goes on - the server's tools change, list_changed is handled, other listings and calls run - and
+	// arrives later (`lrecv`).  At most one listing is in flight.
+	conc := g.epoch >= 5
+	inflight := false
+	callAll := func(n string, sc []*pfProp) {
+		nm, _ := json.Marshal(n)
+		params := json.RawMessage(`{"name":` + string(nm) + `,"arguments":` + g.pfqArgsAll(sc).json() + `}`)
+		if _, ok := extractName("tools/call", params); !ok {
+			return
+		}
+		add("look t" + hxs(n))
+		add("call t" + hxs(n) + " " + pfParamsTok(params))
+	}
 	for i, n := 0, 6+g.rng.Intn(14); i < n; i++ {
+		if inflight && g.chance(30) {
+			add("lrecv")
+			inflight = false
+		}
+		if conc && !inflight && g.chance(12) {
+			// a listing overtaken by a change: in flight while a tool is re-registered (changed annotations) or added, the
+			// notification goes out (or not yet), the response arrives, the client lists again and calls
+			if g.chance(35) {
+				add("ttl " + g.pick([]string{"40", "60000", "60000"}))
+			}
+			if g.chance(25) {
+				add("list c-") // something is cached when the listing starts (a lapsed or a fresh page)
+				if g.chance(60) {
+					add(fmt.Sprintf("adv %d", []int{39, 41, 100, 60001}[g.rng.Intn(4)]))
+				}
+			}
+			add("lsend c-")
+			ns := names()
+			var n string
+			if len(ns) > 0 && g.chance(85) {
+				n = ns[g.rng.Intn(len(ns))]
+				rev := g.pfqRevise(tools[n].schema, g.pick([]string{"strip", "rename", "move"}))
+				if rev == nil {
+					rev = g.pfqMutate(tools[n].schema)
+				}
+				setTool(n, rev)
+			} else {
+				n = pfqNames[g.rng.Intn(len(pfqNames))]
+				setTool(n, schema())
+			}
+			if g.chance(70) {
+				add(fmt.Sprintf("adv %d", []int{5, 10, 11, 50}[g.rng.Intn(4)]))
+			}
+			if g.chance(25) {
+				add("list c-") // a second listing overtakes the first
+			}
+			add("lrecv")
+			if g.chance(40) {
+				add(fmt.Sprintf("adv %d", []int{1, 10, 11, 50}[g.rng.Intn(4)]))
+			}
+			listAll()
+			callAll(n, tools[n].schema)
+			callAll(n, tools[n].schema)
+			continue
+		}
 		r := g.rng.Intn(100)
 		switch {
 		case r < 14:
+			if conc && !inflight && g.chance(35) {
+				add("lsend c-")
+				inflight = true
+				break
+			}
 			add("list c-")
 		case r < 24:
 			add("list next")
 		case r < 30:
+			if conc && !inflight && g.chance(35) {
+				add("lsend c" + hxs(pfqNames[g.rng.Intn(len(pfqNames))]))
+				inflight = true
+				break
+			}
 			add("list c" + hxs(pfqNames[g.rng.Intn(len(pfqNames))]))
 		case r < 38:
 			listAll()
@@ -933,6 +1112,10 @@ func (g *pfGen) pfqGenerate() []string {
 		default:
 			add("ttl " + g.pick(ttls))
 		}
+	}
+	if inflight {
+		add("lrecv")
+		add("list c-")
 	}
 	_ = everListed
 	return lines
